@@ -1,4 +1,5 @@
 import DriverLib.Basic
+import DriverLib.C04
 import QV.Model.States
 import QV.Model.Unitaries
 import QV.Model.Metrics
@@ -15,6 +16,9 @@ structure St (n : Nat) where
   rho : (Fin n → Bool) → (Fin n → Bool) → C Float
   prob : (Fin n → Bool) → Float
   Z : Float
+  /-- the keyword entries `kw` of `unitary_dict=create_dict(**kw)` the state was constructed with (`[]`: the default
+  dictionary); the rotations look letters up in `userDict kw` -/
+  kw : Unitaries.UDict Float := []
 
 def bitsOf {n : Nat} (σ : Fin n → Bool) : Fin n → Float := fun j => bit (σ j)
 
@@ -22,6 +26,7 @@ def bitsOf {n : Nat} (σ : Fin n → Bool) : Fin n → Float := fun j => bit (σ
 C01/C02 models -/
 def parseState (j : Json) : R ((n : Nat) × St n) := do
   let kind ← jStr (← fld j "kind")
+  let kw : Unitaries.UDict Float := (← Drv.C04.parseDict ((fldOpt j "dict").getD .null)).getD []
   let n ← jNat (← fld j "n")
   let h ← jNat (← fld j "h")
   let space : Fin (2 ^ n) → Fin n → Float := fun k => spaceRow n k.val
@@ -37,7 +42,7 @@ def parseState (j : Json) : R ((n : Nat) × St n) := do
     let tabP : Array Float := Array.ofFn (fun k : Fin N => Density.probability am (bitsOf (row n k.val)) Z)
     return ⟨n, { pure := false, hasDict := true, psi := fun _ => (0, 0),
                  rho := fun σ σ' => (tabR[basisIndex σ]!)[basisIndex σ']!,
-                 prob := fun σ => tabP[basisIndex σ]!, Z := Z }⟩
+                 prob := fun σ => tabP[basisIndex σ]!, Z := Z, kw := kw }⟩
   else
     let am ← parseRBM (← fld j "am") n h
     let Z := Wave.normalization am space
@@ -50,7 +55,7 @@ def parseState (j : Json) : R ((n : Nat) × St n) := do
         return Array.ofFn (fun k : Fin N => Wave.psiPos am (bitsOf (row n k.val)))
       else .error s!"unknown kind {kind}")
     return ⟨n, { pure := true, hasDict := kind == "cplx", psi := fun σ => tabPsi[basisIndex σ]!, rho := fun _ _ => (0, 0),
-                 prob := fun σ => tabP[basisIndex σ]!, Z := Z }⟩
+                 prob := fun σ => tabP[basisIndex σ]!, Z := Z, kw := kw }⟩
 
 /-- `{"re": [...], "im": [...]}` -/
 def parseCVec (j : Json) : R (Nat → C Float) := do
@@ -123,10 +128,10 @@ def kl (j : Json) : R Json := do
     | some b => do return some (← parseBases n b))
   if st.pure then
     let target ← parseTarget n parseCVec (← fld j "target")
-    return Json.mkObj [("res", resOut (klPure eps n (if st.hasDict then some defaultDict else none) st.psi st.prob st.Z target bases)), ("Z", fOut st.Z)]
+    return Json.mkObj [("res", resOut (klPure eps n (if st.hasDict then some (userDict st.kw) else none) st.psi st.prob st.Z target bases)), ("Z", fOut st.Z)]
   else
     let target ← parseTarget n parseCMat (← fld j "target")
-    return Json.mkObj [("res", resOut (klMixed eps n defaultDict st.rho st.prob st.Z target bases)), ("Z", fOut st.Z)]
+    return Json.mkObj [("res", resOut (klMixed eps n (userDict st.kw) st.rho st.prob st.Z target bases)), ("Z", fOut st.Z)]
 
 /-- op `c10.nll` -/
 def nll (j : Json) : R Json := do
@@ -136,8 +141,8 @@ def nll (j : Json) : R Json := do
   let sb ← (match fldOpt j "sample_bases" with
     | none => pure none
     | some b => do return some (← parseBases n b))
-  let r := if st.pure then nllPure eps n (if st.hasDict then some defaultDict else none) st.psi st.prob st.Z samples sb
-           else nllMixed eps n defaultDict st.rho st.prob st.Z samples sb
+  let r := if st.pure then nllPure eps n (if st.hasDict then some (userDict st.kw) else none) st.psi st.prob st.Z samples sb
+           else nllMixed eps n (userDict st.kw) st.rho st.prob st.Z samples sb
   return Json.mkObj [("res", resOut r), ("Z", fOut st.Z)]
 
 /-- op `c10.state`: the tabulated state (auxiliary localisation points) -/
